@@ -1,6 +1,6 @@
 (* C15 — property theorems only: each restates the full statement and is closed by the lemma proved in Proofs/. *)
 From Coq Require Import ZArith List Bool.
-From NPS Require Import ListAux PySlice NumpySem Scatter BuildIdx XorBroadcast View Index Assign Reduce Scan RaOps Heap Hash HashRun BitArr RLE RLEOps RLE2d DataClass RowsSpec AssignSpec MapSpec Denote RLEIndex RLEIndex2 RLEWindows GetSlice StartEnd StepProof StepNeg.
+From NPS Require Import ListAux PySlice NumpySem Scatter BuildIdx XorBroadcast View Index Assign Reduce Scan RaOps Heap Hash HashRun BitArr RLE RLEOps RLE2d DataClass RowsSpec AssignSpec MapSpec Denote RLEIndex RLEIndex2 RLEWindows RLEWindowsVecProof GetSlice StartEnd StepProof StepNeg.
 Import ListNotations.
 Open Scope Z_scope.
 
@@ -52,6 +52,32 @@ Theorem C15_rl_windows_decode :
        map2 (fun s e : Z => ztake (e - s) (zdrop s (decode A (0 :: ev, vs)))) ss es.
 Proof. exact rl_windows_decode. Qed.
 Print Assumptions C15_rl_windows_decode.
+
+Theorem C15_start_to_end_vec_is_rows :
+  forall A : Type,
+       A ->
+       forall (e0 : Z) (ev : list Z) (vs : list A) (ss es : list Z),
+       length ev = length vs ->
+       length ss = length es ->
+       Forall (fun s : Z => e0 <= s) ss ->
+       RLEWindowsVec.start_to_end_vec (e0 :: ev, vs) ss es = Ok (rl_windows (e0 :: ev, vs) ss es).
+Proof. exact start_to_end_vec_is_rows. Qed.
+Print Assumptions C15_start_to_end_vec_is_rows.
+
+Theorem C15_start_to_end_vec_decode :
+  forall A : Type,
+       A ->
+       forall (ev : list Z) (vs : list A) (ss es : list Z),
+       length ev = length vs ->
+       strictly_increasing (0 :: ev) ->
+       length ss = length es ->
+       Forall (fun se : Z * Z => 0 <= fst se /\ (fst se < snd se -> snd se <= last (0 :: ev) 0))
+         (combine ss es) ->
+       exists rows : list (rla A),
+         RLEWindowsVec.start_to_end_vec (0 :: ev, vs) ss es = Ok rows /\
+         map (decode A) rows = map2 (fun s e : Z => ztake (e - s) (zdrop s (decode A (0 :: ev, vs)))) ss es.
+Proof. exact start_to_end_vec_decode. Qed.
+Print Assumptions C15_start_to_end_vec_decode.
 
 Theorem C15_rl_getitem_rlmask_correct :
   forall (A : Type) (ev : list Z) (vs : list A) (lsM : list Z) (bsM : list bool),
